@@ -76,6 +76,7 @@ var (
 	errReadBadRequest           = errors.New("ntske received bad request error message")
 	errReadUnrecognisedCritical = errors.New("ntske received unrecognized critical error message")
 	errReadUnknown              = errors.New("ntske received unknown error message")
+	errReadRecordLen            = errors.New("ntske received record of unexpected length")
 	errReadAeadLen              = errors.New("ntske received AEAD algorithm record of unexpected length")
 )
 
@@ -321,8 +322,13 @@ func ReadData(ctx context.Context, log *slog.Logger, reader *bufio.Reader, data 
 			return nil
 
 		case RecNextproto:
-			var nextProto uint16
-			err := binary.Read(reader, binary.BigEndian, &nextProto)
+			// The record carries a list of protocol IDs; consume all of them,
+			// as announced, so that the records behind it are found.
+			if msg.BodyLen%2 != 0 {
+				return errReadRecordLen
+			}
+			nextProto := make([]uint16, msg.BodyLen/2)
+			err := binary.Read(reader, binary.BigEndian, nextProto)
 			if err != nil {
 				return err
 			}
@@ -358,12 +364,18 @@ func ReadData(ctx context.Context, log *slog.Logger, reader *bufio.Reader, data 
 			data.Server = string(address)
 
 		case RecPort:
+			if msg.BodyLen != 2 {
+				return errReadRecordLen
+			}
 			err := binary.Read(reader, binary.BigEndian, &data.Port)
 			if err != nil {
 				return err
 			}
 
 		case RecError:
+			if msg.BodyLen != 2 {
+				return errReadRecordLen
+			}
 			var code uint16
 			err := binary.Read(reader, binary.BigEndian, &code)
 			if err != nil {
